@@ -32,7 +32,7 @@ package flows
 //@   requires c != nil
 //@   ensures [has] result <==> urnIn(c.urns, urn.Normalize().Identity())
 //@ loop 1
-//@   invariant forall k int :: 0 <= k && k <= $i ==> c.urns[k].urn.Identity() != urn.Identity()
+//@   invariant forall k int :: 0 <= k && k <= $i ==> c.urns[k].urn.Identity() != old(urn).Normalize().Identity()
 
 //@ func (c *Contact) ClearURNs
 //@   requires c != nil
